@@ -354,7 +354,7 @@ class Gen:
         others = [c for c in TABLES["t"] if c not in ("a", "b")] + ["zz"]
         st["steps"].append(Step("select", "select {a, b}", "TExclude [%s]" % "; ".join("(None, %d%%N)" % nid(c) for c in others)))
         if r.random() < 0.4:
-            st["steps"].append(Step("distinct", "group {a, b} (take 1)", "TDistinct"))
+            st["steps"].append(Step("distinct", "group {a, b} (take 1)", "TDistinct", nkeys=2))
         on = ("bin", "And", ("bin", "Eq", ("col", "t", "a"), ("col", "u", "a")), ("bin", "Eq", ("col", "t", "b"), ("col", "u", "d")))
         usel = "(Rel.apply (TSelect [(None, ECol None %d%%N); (None, ECol None %d%%N)]) U_TABLE)" % (nid("a"), nid("d"))
         sidetxt = {"Inner": "", "LeftJ": "side:left ", "RightJ": "side:right ", "FullJ": "side:full "}[side]
@@ -589,8 +589,8 @@ class Gen:
             # the first n (>= 2) rows of every group of identical rows: NOT a distinct
             k = self.r.randint(2, 3)
             return Step("distinct", "group {%s} (take %d)" % (", ".join(c for _, c in keep), k),
-                        "TGroupTake %s [] None (Some (%d))" % (coq_names([c for _, c in keep]), k), take_n=k)
-        return Step("distinct", "group {%s} (take 1)" % ", ".join(c for _, c in keep), "TDistinct")
+                        "TGroupTake %s [] None (Some (%d))" % (coq_names([c for _, c in keep]), k), take_n=k, nkeys=len(keep))
+        return Step("distinct", "group {%s} (take 1)" % ", ".join(c for _, c in keep), "TDistinct", nkeys=len(keep))
 
     def t_append(self, st):
         if st["joined"] or st["cols"] != [(None, c) for c in TABLES["t"]] or any(x.kind not in ("sort", "filter", "take") for x in st["steps"]):
